@@ -31,7 +31,7 @@ POOL = [
     "0", "-1", "1e999", "-1e999", "9" * 40, "-" + "9" * 40, "1" + "0" * 400, "0x", "0x110000", "1114112", "0b2", "1__0", "1_", "1.2.3", "1..5", "1....5", "...", "…", ":", "1:2:3", ",", ",,", "1,", ",1", "5...1",
     "NaN", "nan", "Infinity", "-Infinity", "inf", "sNaN", "1e5", "١٢٣", "１２", "äöü", "€", " ", "\x00", "\t", "\n", "\r\n", "a\nb", "\x1b[0m", "﻿", "\ud800",
     "class", "None", "lambda", "import os", "__import__('os')", "is valid", "is_valid", "format", "_format", "VALID_LINE_DELIMITER_TEXTS", "__dict__", "__class__",
-    "1e999999999999999999", "1e-999999999999999999", "0...1e999999999999999999", "a{99999999999}", "(a{99999}){99999}", "0x" + "f" * 5000, "9" * 5000, "hex", "rot13", "base64", "zlib_codec", "unicode_escape", "idna", "punycode",
+    "-1e5000", "-1e5000...", "...-1e5000", "1e5000", "...5", ":5", "5...", "1e999999999999999999", "1e-999999999999999999", "0...1e999999999999999999", "a{99999999999}", "(a{99999}){99999}", "0x" + "f" * 5000, "9" * 5000, "hex", "rot13", "base64", "zlib_codec", "unicode_escape", "idna", "punycode",
     "DD.DD", "YYYYYY", "hh:hh", "%%DD", "DD%", "MMMM", "x" * 300, "a,b;c|d", "tab", "TAB", "cr lf",
 ]
 PRODUCTIVE = ["'", '"abc', "u'a'", '"\\u"', "(", "[", "*", "%", "-", "1e999", "9" * 40, "0x", "1__0", "...", ",", "NaN", "Infinity", "äöü", "\x00", "\n", "class", "is valid", "DD.DD", "", "5...1"]
